@@ -59,6 +59,7 @@ class Knobs:
         self.p_scen = 0.0
         self.p_scen_date = 0.0      # scenario-specific start (ASAP) / end (ALAP) overrides, also on containers
         self.p_prec = 0.0
+        self.p_nested_abs = 0.5      # a global holiday inside a resource's multi-day leave
         self.p_group = 0.25
         self.p_group_cal = 0.5       # a group carries hours / shift / zone / leave that its members inherit
         self.p_group_alloc = 0.08
@@ -227,6 +228,12 @@ def gen_project(rng, k=None):
         else:
             res.append(r)
     p["resources"] = res
+    # an absence nested inside another one: a company holiday in the middle of a resource's multi-day leave
+    for r in [x for x in res if not x.get("children")] + [c for x in res for c in (x.get("children") or [])]:
+        for lv in r.get("leaves") or []:
+            if lv[2] is not None and lv[2] - lv[1] >= 2 * D and pick(rng, k.p_nested_abs):
+                p.setdefault("leaves", []).append(["holiday", lv[1] + D, None])
+                break
     # tasks
     ntask = rng.randrange(1, k.max_tasks + 1)
     tasks = []
